@@ -40,7 +40,7 @@ REQUIRED_CLASSES = ["nontrivial", "order_equal", "order_older", "order_newer", "
                     "connect_ok", "connect_old_firmware", "connect_non_ebb", "connect_silent", "connect_late",
                     "connect_cannot_open", "connect_probe_fault", "connect_no_port", "connect_by_name",
                     "gate_open", "gate_closed", "gate_unidentified", "boundary_version", "connect_retry",
-                    "gate_after_other_board", "order_after_other_board"]
+                    "gate_after_other_board", "order_after_other_board", "connect_after_good_session"]
 QUICK_SHARDS = 4
 
 ebb_serial = sut.load("ebb_serial")
@@ -160,8 +160,21 @@ def body_connect(ctx, case):
         op_index, exc_name = probe_fault
         if op_index < n_probe_ops:
             faults[op_index] = ("raise", exc_name)
-    port.begin_call(faults)
     obj = ebb3_motion.EBBMotionWrap()
+    if case.get("prior_session"):
+        # the same object had a complete good session (connect to a supported board, a request, disconnect) before
+        good = FakePort(Board("ebb3", version="3.0.2", nickname="West"))
+        good_list = [(name, "EiBotBoard,West", "USB VID:PID=04D8:FD92 SER=West LOCATION=1-1")]
+        with patched((ebb3_serial, "comports", lambda: list(good_list)),
+                     (serial, "Serial", SerialFactory({name: good}))):
+            ok = obj.connect()
+        if ok is not True or obj.err is not None:
+            raise sut.HarnessError("prior good session did not connect: %r %r" % (ok, obj.err))
+        obj.query_statusbyte()
+        obj.disconnect()
+        if obj.err is not None or obj.port is not None:
+            raise sut.HarnessError("prior good session did not end cleanly: %r" % (obj.err,))
+    port.begin_call(faults)
     with patched((ebb3_serial, "comports", lambda: list(comports)), (serial, "Serial", factory)):
         try:
             got = obj.connect(given) if given is not None else obj.connect()
@@ -189,6 +202,8 @@ def body_connect(ctx, case):
         classes.add("boundary_version")
     if case.get("retries") and not expect_ok:
         classes.add("connect_retry")
+    if case.get("prior_session"):
+        classes.add("connect_after_good_session")
     ctx.record(case, classes, nontrivial=any(c >= 10 for c in version))
     what = "connect(%s) to a %s device reporting %s (open fault %r, probe fault %r, lookup %s)" % (
         "" if given is None else repr(given), kind, vstr(version), open_fault, probe_fault, lookup)
@@ -362,7 +377,8 @@ def connect_cases(draw):
     version = draw(st.one_of(st.sampled_from(CONNECT_VERSIONS), near(st.just((3, 0, 2))), TRIPLE))
     case = {"kind": kind, "v": list(version), "chatter": draw(st.sampled_from(CHATTER)),
             "lookup": draw(st.sampled_from(["first", "first", "first", "by_name", "by_wrong_name", "none_present"])),
-            "then": draw(st.sampled_from(sorted(em.METHODS))), "retries": draw(st.sampled_from([0, 0, 1, 2]))}
+            "then": draw(st.sampled_from(sorted(em.METHODS))), "retries": draw(st.sampled_from([0, 0, 1, 2])),
+            "prior_session": draw(st.integers(0, 3)) == 0}
     fault = draw(st.integers(0, 5))
     if fault == 0:
         case["open_fault"] = draw(st.sampled_from(SERIAL_FAMILY))
@@ -375,6 +391,7 @@ def connect_grid():
     for kind, version in itertools.product(KINDS, CONNECT_VERSIONS):
         yield {"kind": kind, "v": list(version), "lookup": "first", "then": "query_statusbyte"}
         yield {"kind": kind, "v": list(version), "lookup": "first", "then": "command", "retries": 1}
+        yield {"kind": kind, "v": list(version), "lookup": "first", "then": "query", "prior_session": True}
         yield {"kind": kind, "v": list(version), "lookup": "first", "then": "query", "retries": 2}
         for exc in SERIAL_FAMILY:
             yield {"kind": kind, "v": list(version), "lookup": "first", "open_fault": exc, "then": "command"}
